@@ -303,16 +303,20 @@ class ProfileEngine:
             if rng.random() < 0.4:
                 seq.append(rng.choice(["1,2,3", "4,1", "3", "1,5,3", "7",
                                        "0,1", "x", "1,,2"]))
-            seq.append(rng.choice(
-                ["1,2,4", "1,4", "1,2,4,5", "1,4,2", "1,4,3,2", "1,2,4,6",
-                 "1", "2,1,4", "1,4,3,5,6",
-                 # valid (every prerequisite is met) although a step comes
-                 # before one it would "optionally" follow: stored as typed
-                 "1,2,4,3", "6,1,2", "1,4,5,3", "6,1,4", "1,2,4,6,5"]
-                # selections that satisfy every prerequisite but do not
-                # compute the tip position (the batch fit needs that column
-                # unless the data bring it along)
-                + (["2", "2,6"] if rng.random() < 0.25 else [])))
+            # (sometimes the rejected answer is followed by an empty line:
+            # the prompt is skipped, nothing changes)
+            if not (seq and rng.random() < 0.35):
+                seq.append(rng.choice(
+                    ["1,2,4", "1,4", "1,2,4,5", "1,4,2", "1,4,3,2",
+                     "1,2,4,6", "1", "2,1,4", "1,4,3,5,6",
+                     # valid (every prerequisite is met) although a step
+                     # comes before one it would "optionally" follow:
+                     # stored as typed
+                     "1,2,4,3", "6,1,2", "1,4,5,3", "6,1,4", "1,2,4,6,5"]
+                    # selections that satisfy every prerequisite but do
+                    # not compute the tip position (the batch fit needs
+                    # that column unless the data bring it along)
+                    + (["2", "2,6"] if rng.random() < 0.25 else [])))
             s["preprocessing"] = seq
         if rng.random() < 0.6:
             # sorted keys: 1 hertz_cone 2 hertz_para 3 hertz_pyr3s
